@@ -13,7 +13,7 @@ import valgen
 import xv
 from xv import log
 
-CORPUS_VERSION = "16"
+CORPUS_VERSION = "17"
 
 BOUNDARY = [0, 1, 2, 3, 0xffff, 0x10000, 0x7fffffff, 0x80000000, 0xfffffffe, 0xffffffff]
 
@@ -141,6 +141,13 @@ def quick_specs(seed, tier):
         "union bdef2 switch (bool b) { default: void; case FALSE: void; };\n"
         "union cdef switch (unsigned int k) { case 1: default: void; case SEVEN: void; case 9: unsigned hyper uh; };\n"
         "struct replies { reply r<>; dfirst d<>; dfirst2 e[2]; cdef c; bdef2 b; };\n",
+        # mutual recursion with the opaque data declared late (the generic index must not depend on
+        # which member of a cycle is visited first)
+        "const MAX_NAME = 8;\nstruct folder { unsigned int id; fentry entries<>; opaque acl<>; };\n"
+        "struct fentry { string name<MAX_NAME>; folder sub<1>; };\ntypedef fentry listing<>;\n"
+        "union lookup_res switch (bool ok) { case TRUE: fentry e; case FALSE: void; };\n",
+        "struct ma { mb *next; unsigned int x; };\nstruct mb { mc items<2>; };\nstruct mc { ma *back; md leaf; };\n"
+        "typedef opaque md<16>;\n",
         # a counted array reachable from its own element type (finding F15: every nesting level
         # reserves min(count, remaining) elements, so the total is quadratic in the input)
         "struct tnest { unsigned int v; tnest kids<>; };\n",
